@@ -309,8 +309,12 @@ def finish(prop, tier, seed, mod, tasks, results, t0):
         evidence["coverage"]["states"] = 1
     if evidence["coverage"]["transitions"] < 1:
         evidence["coverage"]["transitions"] = 1
-    os.makedirs(EVID, exist_ok=True)
-    with open(os.path.join(EVID, f"{prop}.json"), "w") as f:
+    # runs against a scratch copy of the library (VOTEKIT_SRC: mutants, seeded changes) never touch the
+    # evidence of /repo itself
+    evid = EVID if "VOTEKIT_SRC" not in os.environ else os.path.join("/var/tmp", "sx_scratch_evidence")
+    evidence["coverage"]["source_tree"] = os.environ.get("VOTEKIT_SRC", "/repo/src")
+    os.makedirs(evid, exist_ok=True)
+    with open(os.path.join(evid, f"{prop}.json"), "w") as f:
         json.dump(evidence, f, indent=1, default=str)
     for l in out_lines:
         print(l)
